@@ -246,3 +246,10 @@ Definition quorum_judge := judge quorum_model Bool.eqb (fun i o => Bool.eqb o (q
 (* typed constructor for the harness output *)
 Definition plug_res (t : N) (rs : list (N * (N * N))) (os : list (N * N)) (rmn : option N) (d : dcons)
   : res (mro * dcons) := Ok ((t, rs, os, rmn), d).
+
+(* whole rounds of long-lived commit plugins (the history part of C04: Byzantine colluders, lost observations, "rollout"
+   rounds in which the f of a chain has no 2F+1 agreement), judged by C04's round judge: every per-chain value of a
+   round's outcome needs 2f+1 observers with the f agreed IN THAT ROUND (seeded change C01-12: a long-lived processor
+   fell back to the f of an earlier round) *)
+Require Verif.Check.C04_check.
+Definition rd04_judge := Verif.Check.C04_check.rd_judge.
